@@ -78,12 +78,32 @@ def is_opt_test(e, X):
                                  (e[3] if e[2] == ("discr", X) else e[2])[0] == "int")
 
 
+def subst(e, old, new):
+    if e == old:
+        return new
+    if isinstance(e, tuple):
+        return tuple(subst(x, old, new) for x in e)
+    return e
+
+
+def from_is_king(L, p):
+    """the path has established mv.from == king square of the mover: the two name the same square from there on"""
+    for c in p.conds:
+        e = L.lift(c[0])
+        if e[0] == "bin" and e[1] in ("Eq", "Ne") and set((e[2], e[3])) == {K, FROM} and isinstance(c[1], int):
+            return (e[1] == "Eq") == bool(c[1])
+    return None
+
+
 def gather(L, p, extra_atoms):
     F = Facts3()
     some_pawn = None
+    same = from_is_king(L, p) is True
     for c in p.conds:
         e = L.lift(c[0])
         v = c[1]
+        if same and not (e[0] == "bin" and set((e[2], e[3])) == {K, FROM}):
+            e = subst(e, K, FROM)
         if e == ("has", OWN, FROM):
             F.b["own_from"] = bool(v)
         elif e[0] == "bin" and e[1] in ("Eq", "Ne") and set((e[2], e[3])) == {K, FROM} and isinstance(v, int):
@@ -109,6 +129,8 @@ def gather(L, p, extra_atoms):
             st = opt_test(e, v, ON)
             if st == "None":
                 F.kind = "None"
+            elif st == "Some":
+                F.b["on_some"] = True
         elif e == ("discr", ONP):
             if isinstance(v, int):
                 F.kind = PIECES[v]
@@ -138,6 +160,9 @@ def gather(L, p, extra_atoms):
         F.kind = "Pawn"
     elif F.b.get("is_pawn") is False:
         F.kind_excl.add("Pawn")
+    if F.kind is None and F.b.get("on_some") and len(set(PIECES) - F.kind_excl) == 1:
+        F.kind = next(iter(set(PIECES) - F.kind_excl))      # the catch-all arm of a match that named every other kind
+    F.b.pop("on_some", None)
     return F
 
 
@@ -177,6 +202,8 @@ def check_is_legal(ctx, f, L):
         for u in F.unknown:
             ctx.fail("is_legal:unknown-decision", "is_legal branches on a condition the reference function does not know: %s" % sym.show(u)[:200], where)
         ret = L.lift(p.ret)
+        if from_is_king(L, p) is True:
+            ret = subst(ret, K, FROM)
         # ---- reference conjuncts
         conj = {"own piece on from": F.b.get("own_from")}
         residual = None
@@ -330,14 +357,30 @@ def check_is_legal(ctx, f, L):
             if residual is None:
                 ok = ret == sym.TRUE
             elif residual[0] == "pawn-generator":
-                ok = ret[0] == "call" and ret[1] == N.generators["Pawn"] and len(ret) > 3 and residual[1] in ret[3] \
-                    and ret[2][0][0] == "ptr" and ret[2][0][1] == ("P", "self") and ret[2][1] == ("bbof", FROM)
+                pg = N.generators["Pawn"]
+                cls = N.gen_call_classes(pg)
+                ok = ret[0] == "call" and ret[1] == pg and len(ret) > 3 and residual[1] in ret[3] and len(ret[2]) == len(cls)
+                li = cls.index("listener") if "listener" in cls else 2
+                if ok:
+                    raw_args = p.ret[2]
+                    bound = N.gen_bound_params(pg, residual[1] == "true")
+                    pgb = f.bodies[pg]
+                    for i_, c_ in enumerate(cls):
+                        a_ = ret[2][i_]
+                        if c_ == "self":
+                            ok = ok and a_[0] == "ptr" and a_[1] == ("P", "self")
+                        elif c_ == "mask":
+                            ok = ok and a_ == ("bbof", FROM)
+                        elif c_ == "bound":
+                            # a value the roster computes and hands in: is_legal must hand in the same value
+                            want_ = L.lift(bound.get(pgb.local_name(i_ + 1)))
+                            ok = ok and (a_ == want_ or setalg.equivalent(a_, want_))
                 # listener: |moves| moves.to.has(mv.to)
                 if ok:
                     cl = None
                     for ev in p.events:
                         if ev.kind == "call" and ev.ret == p.ret:
-                            cl = ev.extra.get("pointees", {}).get(2)
+                            cl = ev.extra.get("pointees", {}).get(li)
                     okc = False
                     if cl is not None and cl[0] == "closure":
                         cb = f.bodies.get(cl[1])
